@@ -27,5 +27,9 @@ def check(ctx):
     tracemacro.macro_inventory(ctx, ctx.facts("E"))
     # "over all signatures accepted by the macro": an argument combination whose template has nowhere to put the properties must
     # be rejected, whatever the order of the arguments (two compile-fail witnesses with compiling twins, asked of rustc itself)
+    # the guard the sync template holds is a LocalSpan: it leaves the span stack on every path of its Drop, also when the annotated
+    # function panics (otherwise the caller's later calls are recorded under the dead span: a difference the plain function has not)
+    from .. import scopes
+    scopes.rule_scope_pairing(ctx, ctx.facts("E"), "R7")
     from .. import witness
     witness.run(ctx, "R6", ["trace_props_then_poll", "trace_poll_then_props"])
